@@ -17,6 +17,13 @@
 (*     environment step Fill(k) (Eof for k = 0) at exactly the moment the    *)
 (*     machine needs bytes, nothing left over; error kinds; size_hint.       *)
 (*                                                                           *)
+(* cfg.cls in {"file", "shared"}: readers over real files (Index::from_file,  *)
+(* Cursor, File::try_clone): events carry `who`; "shared" = two readers over  *)
+(* try_clone'd handles of one file, i.e. ONE OS file cursor written by both   *)
+(* readers' seeks and fills (IndexedFastaSharedMC models it). st = a pair of  *)
+(* selections; each reader's results must depend on its own selection only    *)
+(* ("consecutive fetches are independent"). No io log, hence no Exact verdict.*)
+(*                                                                           *)
 (* cfg.cls = "big": closed-form huge family (a virtual file of up to 5*10^9  *)
 (* bases computed on demand by the harness, base(i) = "ACGTN"[i mod 5]).      *)
 (* cfg = [cls, name, w, t, lenhi, lenlo, R]; positions are pairs hi*R+lo;    *)
@@ -213,17 +220,29 @@ After(cfg, s, e) ==
         THEN Sel(m2, e.r.ok = 0)                 \* Explains has fixed r.ok = (name / rid known)
         ELSE s                                   \* reads leave nothing behind but the selection
 
+\* ------------------------------------------------- readers over real files, shared cursor
+IsFileCls(cfg) == cfg.cls \in {"file", "shared"}
+FileSel0 == <<Sel(MInit, FALSE), Sel(MInit, FALSE)>>
+FileExplains(cfg, s, e) ==
+    LET w == e.c.a.who + 1 IN
+    /\ w \in {1, 2}
+    /\ Explains(cfg, s[w], e)
+FileAfter(cfg, s, e) == LET w == e.c.a.who + 1 IN [s EXCEPT ![w] = After(cfg, s[w], e)]
+
 Init == /\ run \in 1..Len(Rec) /\ idx = 0 /\ ok = TRUE
-        /\ st = IF IsBig(Rec[run].cfg) THEN BigSel0 ELSE Sel(MInit, FALSE)
+        /\ st = IF IsBig(Rec[run].cfg) THEN BigSel0
+                ELSE IF IsFileCls(Rec[run].cfg) THEN FileSel0 ELSE Sel(MInit, FALSE)
 Next ==
     /\ ok /\ idx < Len(Rec[run].ev)
     /\ LET e    == Rec[run].ev[idx + 1]
            cfg  == Rec[run].cfg
-           good == IF IsBig(cfg) THEN BigExplains(cfg, st, e) ELSE Explains(cfg, st, e)
+           good == IF IsBig(cfg) THEN BigExplains(cfg, st, e)
+                   ELSE IF IsFileCls(cfg) THEN FileExplains(cfg, st, e) ELSE Explains(cfg, st, e)
        IN  /\ ok' = good
-           /\ st' = IF ~good THEN st ELSE IF IsBig(cfg) THEN BigAfter(st, e) ELSE After(cfg, st, e)
+           /\ st' = IF ~good THEN st ELSE IF IsBig(cfg) THEN BigAfter(st, e)
+                    ELSE IF IsFileCls(cfg) THEN FileAfter(cfg, st, e) ELSE After(cfg, st, e)
            /\ IF good
-              THEN (IF IsBig(cfg) \/ Exact(cfg, st, e) THEN TRUE ELSE PrintT(<<"DRIFT", run, idx + 1>>))
+              THEN (IF IsBig(cfg) \/ IsFileCls(cfg) \/ Exact(cfg, st, e) THEN TRUE ELSE PrintT(<<"DRIFT", run, idx + 1>>))
               ELSE PrintT(<<"REJECT", run, idx + 1>>)
     /\ idx' = idx + 1
     /\ UNCHANGED run
